@@ -117,12 +117,27 @@ def _gen_scores_case(rng, i):
                 pos = []
             else:
                 neg = []
+    mixdt = None
+    if rng.random() < 0.15 and pos and neg:
+        # the two classes held in arrays of different dtypes (integer-valued / float32 scores in one class only):
+        # "all scores" must still be the exact score values of both classes
+        mixdt = rng.choice(["posint", "negint", "posf4", "negf4"])
+        if mixdt == "posint":
+            pos = [float(round(x)) for x in pos]
+        elif mixdt == "negint":
+            neg = [float(round(x)) for x in neg]
+        elif mixdt == "posf4":
+            pos = [float(np.float32(x)) for x in pos]
+        else:
+            neg = [float(np.float32(x)) for x in neg]
     ep, en = gen.easy_counts(rng, stream, len(pos), len(neg))
     sc, ec = rng.choice(gen.CFGS)
     metric = rng.choice(gen.METRICS)
     via = rng.choice(["name", "name", "alias", "callable", "callable"])
     allv = sorted(pos + neg)
     pk = rng.choice(["none", "int", "int", "arr"])
+    if pk == "int" and mixdt in ("posf4", "negf4"):
+        pk = "none"  # np.linspace between float32 end points is computed in float32: grid rounding, not semantics
     k, parr, ptype = 0, [], "array"
     if pk == "int":
         k = rng.choice([2, 3, 5, 9, 17, 33, rng.randint(2, 40), rng.randint(2, 12)])
@@ -161,7 +176,7 @@ def _gen_scores_case(rng, i):
             ts.append(rng.choice([0.0, 1.0, -0.5, 1.5, 0.5]))
     return {"op": "thrmetric", "stream": stream, "pos": pos, "neg": neg, "ep": ep, "en": en, "sc": sc, "ec": ec,
             "metric": metric, "via": via, "pk": pk, "k": k, "parr": parr, "ptype": ptype,
-            "ts": [float(t) for t in ts], "scalar": rng.random() < 0.3}
+            "ts": [float(t) for t in ts], "scalar": rng.random() < 0.3, "mixdt": mixdt}
 
 
 def gen_one(rng, i, tier):
@@ -354,8 +369,10 @@ def _build_thrmetric(inp) -> Case:
     inp = dict(inp)
     pos, neg, ts = list(inp["pos"]), list(inp["neg"]), [float(t) for t in inp["ts"]]
     metric = inp["metric"]
-    s = Scores(pos, neg, nb_easy_pos=inp["ep"], nb_easy_neg=inp["en"], score_class=inp["sc"],
-               equal_class=inp["ec"])
+    dts = {"posint": (int, float), "negint": (float, int), "posf4": (np.float32, float), "negf4": (float, np.float32)}.get(
+        inp.get("mixdt"), (float, float))
+    s = Scores(np.array(pos, dtype=dts[0]), np.array(neg, dtype=dts[1]), nb_easy_pos=inp["ep"], nb_easy_neg=inp["en"],
+               score_class=inp["sc"], equal_class=inp["ec"])
     pre = []
     sig = f"thrmetric/{inp['pk']}"
     seen = []
